@@ -754,7 +754,7 @@ MUTANTS = [
     {'name': 'read-format-dropped', 'file': NX, 'rule': 'R1', 'find': 'READ_FORMATS = ["json_nodelink", "graphml"]', 'replace': 'READ_FORMATS = ["graphml"]'},
     {'name': 'markup-step-dropped', 'file': NX, 'rule': 'R2', 'find': '                graph_string = GraphML.networkx_to_neo4j(graph_string)\n', 'replace': ''},
     {'name': 'node-markup-conditional-on-edge-key', 'file': GU, 'rule': 'R2',
-     'find': "            if not n.attrib.get('labels'):", 'replace': "            if edge_class and not n.attrib.get('labels'):"},
+     'find': "            if data is not None and not n.attrib.get('labels'):", 'replace': "            if data is not None and edge_class and not n.attrib.get('labels'):"},
     {'name': 'direct-import-uses-add_graph', 'file': NX, 'rule': 'R3',
      'find': '            if graph:\n                self.storage.add_graph_direct(graph_id=graph_id, graph=graph)\n            else:\n                raise PropertyGraphImportException(graph_id=graph_id,\n                                                   msg=f\'Unable to import graph from string\')\n\n        return self.graph_class(graph_id=graph_id, importer=self, logger=self.log) if graph_id is not None else None',
      'replace': '            if graph:\n                self.storage.add_graph(graph_id=graph_id, graph=graph)\n            else:\n                raise PropertyGraphImportException(graph_id=graph_id,\n                                                   msg=f\'Unable to import graph from string\')\n\n        return self.graph_class(graph_id=graph_id, importer=self, logger=self.log) if graph_id is not None else None'},
